@@ -39,7 +39,12 @@ func (i *Interpreter) ProcessSubroutine(sub *ast.SubroutineDeclaration, ds Debug
 	i.callStack = append(i.callStack, sub)
 	// If expected stack count is exceeded, raise an error
 	if len(i.callStack) > maxCallStackExceedCount {
-		return NONE, errors.WithStack(exception.MaxCallStackExceeded(&sub.GetMeta().Token, i.callStack))
+		err := exception.MaxCallStackExceeded(&sub.GetMeta().Token, i.callStack)
+		// Undo the push and the variable swap: nothing below runs for this frame
+		i.callStack = i.callStack[:len(i.callStack)-1]
+		i.ctx.RegexMatchedValues = regex
+		i.localVars = local
+		return NONE, errors.WithStack(err)
 	}
 
 	defer func() {
@@ -84,7 +89,12 @@ func (i *Interpreter) ProcessFunctionSubroutine(sub *ast.SubroutineDeclaration, 
 	i.callStack = append(i.callStack, sub)
 	// If expected stack count is exceeded, raise an error
 	if len(i.callStack) > maxCallStackExceedCount {
-		return value.Null, NONE, errors.WithStack(exception.MaxCallStackExceeded(&sub.GetMeta().Token, i.callStack))
+		err := exception.MaxCallStackExceeded(&sub.GetMeta().Token, i.callStack)
+		// Undo the push and the variable swap: nothing below runs for this frame
+		i.callStack = i.callStack[:len(i.callStack)-1]
+		i.ctx.RegexMatchedValues = regex
+		i.localVars = local
+		return value.Null, NONE, errors.WithStack(err)
 	}
 
 	defer func() {
